@@ -114,7 +114,6 @@ where
         ..
     } = opened_values_targets;
 
-    let degree = 1 << degree_bits;
     let lookup_gadget = LogUpGadget {};
     let preprocessed_width = opt_opened_preprocessed_local_targets
         .as_ref()
@@ -140,6 +139,22 @@ where
         &lookup_gadget,
     );
     let quotient_degree = 1 << (log_quotient_degree + config.is_zk());
+
+    // `degree_bits` is prover-supplied and is used below as a shift amount and as the log-size of
+    // the trace and quotient domains: bound it first. No evaluation domain has more points than
+    // the base field has bits (the tighter PCS-specific limit, e.g. the two-adicity, is not
+    // available through the generic PCS interface).
+    let log_quotient_domain_size = degree_bits.checked_add(log_quotient_degree);
+    if *degree_bits < config.is_zk()
+        || log_quotient_domain_size
+            .is_none_or(|s| s >= usize::BITS as usize || s > Val::<SC>::bits())
+    {
+        return Err(VerificationError::InvalidProofShape(format!(
+            "degree_bits {degree_bits} out of range (log quotient degree {log_quotient_degree}, base field bit width {})",
+            Val::<SC>::bits()
+        )));
+    }
+    let degree = 1 << degree_bits;
 
     let pcs = config.pcs();
     let trace_domain = pcs.natural_domain_for_degree(degree);
